@@ -137,7 +137,7 @@ def run_case(case, R):
         if vol > 1e-9 * scale:
             positive += 1
         lv = float(lib_volume(lambda g: F(np.array(list(g), dtype=float)), list(a), list(b)))
-        if abs(lv - vol) > 1e-12 * scale + 1e-300:
+        if not (abs(lv - vol) <= 1e-12 * scale + 1e-300):
             R.violation("library-volume-operator-differs", f"{label}: levycopulamodel.volume gives {lv!r}, the 2^d-corner sum {vol!r}", wit)
             break
     # ---- one-dimensional margins are the identity ------------------------------------------------------------------
@@ -158,10 +158,10 @@ def run_case(case, R):
                     arr[k] = v
                     sg *= -1.0 if v < 0 else 1.0
                 own += sg * float(F(arr))
-            if abs(own - u) > 1e-12 * abs(u):
+            if not (abs(own - u) <= 1e-12 * abs(u)):
                 R.violation(f"{kind}-{d}d-margin-not-identity", f"{label}: margin {i} at u = {u!r} is {own!r}", wit)
                 break
-            if abs(got - own) > 1e-12 * abs(u):
+            if not (abs(got - own) <= 1e-12 * abs(u)):
                 R.violation("library-margin-operator-differs", f"{label}: levycopulamodel.margin gives {got!r}, definition {own!r}", wit)
                 break
     # ---- Clayton: conditional distribution, inverse, mixed derivative ---------------------------------------------------
@@ -188,7 +188,7 @@ def _conditional(F, c, rng, R, label, wit):
             return
         lo_lim = float(F.conditional_distribution(eps, np.array([-1e300]))[0])
         hi_lim = float(F.conditional_distribution(eps, np.array([1e300]))[0])
-        if abs(lo_lim) > 1e-9 or abs(hi_lim - 1) > 1e-9:
+        if not (abs(lo_lim) <= 1e-9 and abs(hi_lim - 1) <= 1e-9):
             R.violation("clayton-conditional-distribution-limits", f"{label}: F_eps(-1e300) = {lo_lim!r}, F_eps(1e300) = {hi_lim!r} for eps = {eps!r}", wit)
             return
         # inverse round trips
@@ -206,7 +206,7 @@ def _conditional(F, c, rng, R, label, wit):
                 R.violation("clayton-inverse-conditional-not-finite", f"{label}: inverse_conditional_distribution(eps={eps!r}, y={y!r}) = {x!r}", wit)
                 return
             back = float(F.conditional_distribution(eps, np.array([x]))[0])
-            if abs(back - y) > 1e-9:
+            if not (abs(back - y) <= 1e-9):
                 R.violation("clayton-inverse-conditional-does-not-invert", f"{label}: F_eps(inverse(y)) = {back!r} for y = {y!r}, eps = {eps!r} "
                             f"(inverse = {x!r})", wit)
                 return
@@ -214,7 +214,7 @@ def _conditional(F, c, rng, R, label, wit):
             y0 = float(F.conditional_distribution(eps, np.array([x0]))[0])
             if 1e-9 < y0 < 1 - 1e-9 and abs(y0 - at0) > 1e-9:
                 x1 = float(np.asarray(F.inverse_conditional_distribution(np.array([eps]), np.array([y0]))).reshape(-1)[0])
-                if abs(x1 - x0) > 1e-6 * abs(x0):
+                if not (abs(x1 - x0) <= 1e-6 * abs(x0)):
                     R.violation("clayton-inverse-conditional-does-not-invert", f"{label}: inverse(F_eps({x0!r})) = {x1!r} (eps = {eps!r})", wit)
                     return
 
@@ -249,7 +249,7 @@ def _mixed(F, c, d, rng, R, label, wit):
         if abs(vol) < 1e-9 * scale:
             R.skip("mixed-derivative-rectangle-of-negligible-volume")
             continue
-        if abs(i_prop - vol) > tol:
+        if not (abs(i_prop - vol) <= tol):
             if abs(i_sign - vol) <= tol:
                 key = "clayton-x_first_derivative-is-mixed-partial-times-sign-product"
             else:
